@@ -198,6 +198,8 @@ class Executor:
                 env[p] = spec.bound[p]
             elif p in spec.other_params:
                 env[p] = spec.other_params[p]
+            elif (p, sc.qualname) in spec.roles:
+                env[p] = spec.roles[(p, sc.qualname)]      # e.g. the observer parameter of a subscribe function
             else:
                 env[p] = ("arg", p)
         if extra_env:
@@ -360,6 +362,11 @@ class Executor:
             last = dotted.split(".")[-1]
             if last in KIND_CLASSES and ref[1].name.startswith("rxsci"):
                 return ("kindcls", KIND_CLASSES[last])
+            # a module constant bound exactly once to a literal is that literal (_ROOT_KEY = (0,))
+            if ref[1].bind_count.get(last, 0) == 1:
+                lit = _literal_term(ref[2])
+                if lit is not None:
+                    return lit
             return ("modvar", "%s.%s" % (ref[1].name, last), ref[2])
         if ref[0] == "module":
             return ("glob", ref[1])
@@ -1283,6 +1290,14 @@ class Executor:
 
 
 # ----------------------------------------------------------------------
+def _literal_term(node):
+    if isinstance(node, ast.Constant) and not isinstance(node.value, (bytes,)) or (isinstance(node, ast.Constant)):
+        return const(node.value)
+    if isinstance(node, ast.Tuple) and all(isinstance(e, ast.Constant) for e in node.elts):
+        return ("tuple",) + tuple(const(e.value) for e in node.elts)
+    return None
+
+
 def _as_load(node):
     n = ast.copy_location(type(node)(**{f: getattr(node, f) for f in node._fields}), node)
     n.ctx = ast.Load()
